@@ -205,6 +205,14 @@ impl SubRule {
         Ok(is_match)
     }
 
+    /// The before side of an environment is matched right to left: mirror it, including the contents of optionals.
+    fn mirrored(states: &[Item]) -> Vec<Item> {
+        states.iter().rev().map(|item| match &item.kind {
+            ParseElement::Optional(inner, min, max) => Item::new(ParseElement::Optional(Self::mirrored(inner), *min, *max), item.position),
+            _ => item.clone(),
+        }).collect()
+    }
+
     fn match_contexts_and_exceptions(&self, word: &Word, start_pos: SegPos, end_pos: SegPos, inc: bool) -> Result<bool, RuleRuntimeError> {
         let contexts = self.get_contexts();
         let exceptions = self.get_exceptions();
@@ -217,8 +225,7 @@ impl SubRule {
         let mut is_expt_match = false;
 
         for (bef_cont_states, aft_cont_states) in contexts {
-            let mut bef_cont_states = bef_cont_states.clone();
-            bef_cont_states.reverse();
+            let bef_cont_states = Self::mirrored(bef_cont_states);
             if (bef_cont_states.is_empty() || self.match_before_env(&bef_cont_states, &word_rev, &start_pos.reversed(word), false, true)?) 
             && (aft_cont_states.is_empty() || self.match_after_env(aft_cont_states, word, &end_pos, false, inc, true)?) {
                 is_cont_match = true;
@@ -226,8 +233,7 @@ impl SubRule {
             }
         }
         for (bef_expt_states, aft_expt_states) in exceptions {
-            let mut bef_expt_states = bef_expt_states.clone();
-            bef_expt_states.reverse();
+            let bef_expt_states = Self::mirrored(bef_expt_states);
             if (bef_expt_states.is_empty() || self.match_before_env(&bef_expt_states, &word_rev, &start_pos.reversed(word), false, false)?) 
             && (aft_expt_states.is_empty() || self.match_after_env(aft_expt_states, word, &end_pos, false, inc, false)?) {
                 is_expt_match = true;
@@ -842,8 +848,7 @@ impl SubRule {
             std::cmp::Ordering::Equal => exceptions[0],
             std::cmp::Ordering::Greater => return Err(RuleRuntimeError::InsertionGroupedEnv(self.except.clone().unwrap().position)),
         };
-        let mut before_expt = before_expt.clone();
-        before_expt.reverse();
+        let before_expt = Self::mirrored(before_expt);
 
         match (before_expt.is_empty(), after_expt.is_empty()) {
             // _
